@@ -580,6 +580,24 @@ TWINS = {
         "@utype.parse\nasync def ag(n: int) -> AsyncGenerator[P, Tg]:\n    got = yield dict(v=str(n))\n    yield dict(v=len(got))\n"
         "@utype.parse\nasync def ai(n: int) -> typing.AsyncIterator[P]:\n    yield dict(v=str(n))\n"
         "@utype.parse\nasync def co(n: int) -> P:\n    return dict(v=str(n))\n"),
+    "local-function-kwargs-ref": (
+        [("def make():\n    @utype.parse\n    def f(a: int = 0, *args: 'X', **kwargs: 'X'):\n"
+          "        return (a, [type(x).__name__ for x in args], sorted((k, type(v).__name__, v.v) for k, v in kwargs.items()))\n"
+          "    class X(Schema):\n        v: int\n    return f, X\nf, X = make()\n",
+          ["f(1, k={'v': '2'})", "f(1, {'v': 3}, k={'v': 4})", "f(k={'v': 'x'})", "f(2)"])],
+        "def make():\n    class X(Schema):\n        v: int\n    @utype.parse\n    def f(a: int = 0, *args: X, **kwargs: X):\n"
+        "        return (a, [type(x).__name__ for x in args], sorted((k, type(v).__name__, v.v) for k, v in kwargs.items()))\n"
+        "    return f, X\nf, X = make()\n"),
+    "result-only-function-ref": (
+        [("@utype.parse(ignore_params=True)\ndef r1(x) -> 'Rec':\n    return dict(v=x)\n"
+          "@utype.parse(ignore_params=True)\ndef r2(x) -> List['Rec']:\n    return [dict(v=x)]\n"
+          "@utype.parse(ignore_result=True)\ndef r3(x: 'Rec') -> 'Rec':\n    return type(x).__name__\n", []),
+         ("class Rec(Schema):\n    v: int\n",
+          ["(type(r1('1')).__name__, r1('1').v)", "[type(y).__name__ for y in r2(2)]", "r1('x')", "r3({'v': '3'})", "r3({'v': 'x'})"])],
+        "class Rec(Schema):\n    v: int\n"
+        "@utype.parse(ignore_params=True)\ndef r1(x) -> Rec:\n    return dict(v=x)\n"
+        "@utype.parse(ignore_params=True)\ndef r2(x) -> List[Rec]:\n    return [dict(v=x)]\n"
+        "@utype.parse(ignore_result=True)\ndef r3(x: Rec) -> Rec:\n    return type(x).__name__\n"),
     "subclass-adds-ref-to-pending-base": (
         [("class Base(Schema):\n    a: Optional['X'] = None\n"
           "class Sub(Base):\n    b: List['Y'] = Field(default_factory=list)\n", []),
